@@ -395,7 +395,82 @@ pub mod sp {
         ensures #[trigger] m.remove(k) == m
     { assert(m.remove(k) =~= m); }
 
-    pub broadcast group group_wf { b_remove_absent, b_take_contains, b_take_full, b_suffix_refl, b_suffix_pop, b_rm1_index, b_push_subrange, b_push_drop_last, b_insert_remove_same, b_push_last, b_wf_push, b_wf_replace, b_wf_mutated, b_rm_all_nodup, b_wf_len, b_rm1_len, b_wf_remove, b_wf_store, b_wf_touch, b_nodup_pos,
+    // ---- sweeping the queue against the store: `q.retain(|k| m.contains_key(k))`
+    /// the elements of q that are stored in m, in order
+    pub open spec fn resident_filter<V>(q: Seq<String>, m: Map<String, V>) -> Seq<String>
+        decreases q.len()
+    {
+        if q.len() == 0 { q } else {
+            let r = resident_filter(q.drop_last(), m);
+            if m.contains_key(q.last()) { r.push(q.last()) } else { r }
+        }
+    }
+    pub proof fn lemma_resident_filter<V>(q: Seq<String>, m: Map<String, V>)
+        ensures
+            forall|x: String| #[trigger] resident_filter(q, m).contains(x) <==> (q.contains(x) && m.contains_key(x)),
+            q.no_duplicates() ==> resident_filter(q, m).no_duplicates(),
+            (forall|j: int| 0 <= j < q.len() ==> m.contains_key(#[trigger] q[j])) ==> resident_filter(q, m) == q,
+            resident_filter(q, m).len() <= q.len(),
+        decreases q.len()
+    {
+        if q.len() > 0 {
+            let p = q.drop_last();
+            let r = resident_filter(p, m);
+            lemma_resident_filter(p, m);
+            assert(q =~= p.push(q.last()));
+            assert forall|x: String| #[trigger] resident_filter(q, m).contains(x) <==> (q.contains(x) && m.contains_key(x)) by {
+                if m.contains_key(q.last()) {
+                    let rr = r.push(q.last());
+                    if rr.contains(x) {
+                        let i = choose|i: int| 0 <= i < rr.len() && rr[i] == x;
+                        if i < r.len() { assert(r[i] == x); assert(r.contains(x)); assert(p.contains(x)); let j = choose|j: int| 0 <= j < p.len() && p[j] == x; assert(q[j] == x); }
+                        else { assert(q[q.len() - 1] == x); }
+                    }
+                    if q.contains(x) && m.contains_key(x) {
+                        let j = choose|j: int| 0 <= j < q.len() && q[j] == x;
+                        if j < p.len() { assert(p[j] == x); assert(p.contains(x)); assert(r.contains(x)); let i = choose|i: int| 0 <= i < r.len() && r[i] == x; assert(rr[i] == x); }
+                        else { assert(rr[r.len() as int] == x); }
+                    }
+                } else {
+                    if r.contains(x) { assert(p.contains(x)); let j = choose|j: int| 0 <= j < p.len() && p[j] == x; assert(q[j] == x); }
+                    if q.contains(x) && m.contains_key(x) {
+                        let j = choose|j: int| 0 <= j < q.len() && q[j] == x;
+                        assert(j < p.len());
+                        assert(p[j] == x); assert(p.contains(x));
+                    }
+                }
+            }
+            if q.no_duplicates() {
+                assert(p.no_duplicates());
+                if m.contains_key(q.last()) {
+                    assert(!p.contains(q.last())) by { if p.contains(q.last()) { let j = choose|j: int| 0 <= j < p.len() && p[j] == q.last(); assert(q[j] == q[q.len() - 1]); } }
+                    assert(!r.contains(q.last()));
+                    lemma_push_nodup(r, q.last());
+                }
+            }
+            if forall|j: int| 0 <= j < q.len() ==> m.contains_key(#[trigger] q[j]) {
+                assert forall|j: int| 0 <= j < p.len() implies m.contains_key(#[trigger] p[j]) by { assert(p[j] == q[j]); }
+                assert(m.contains_key(q[q.len() - 1]));
+            }
+        }
+    }
+    /// sweeping a consistent queue changes nothing
+    pub broadcast proof fn b_resident_filter_wf<V>(q: Seq<String>, m: Map<String, V>)
+        requires wf(m, q)
+        ensures #[trigger] resident_filter(q, m) == q
+    {
+        lemma_resident_filter(q, m);
+        assert forall|j: int| 0 <= j < q.len() implies m.contains_key(#[trigger] q[j]) by { assert(q.contains(q[j])); }
+    }
+    /// sweeping a duplicate-free queue that lists every stored key re-establishes the invariant
+    pub broadcast proof fn b_resident_filter_sweeps<V>(q: Seq<String>, m: Map<String, V>)
+        requires q.no_duplicates(), forall|k: String| m.contains_key(k) ==> q.contains(k)
+        ensures #[trigger] wf(m, resident_filter(q, m))
+    {
+        lemma_resident_filter(q, m);
+    }
+
+    pub broadcast group group_wf { b_remove_absent, b_take_contains, b_take_full, b_suffix_refl, b_suffix_pop, b_rm1_index, b_push_subrange, b_push_drop_last, b_insert_remove_same, b_push_last, b_wf_push, b_wf_replace, b_resident_filter_wf, b_resident_filter_sweeps, b_wf_mutated, b_rm_all_nodup, b_wf_len, b_rm1_len, b_wf_remove, b_wf_store, b_wf_touch, b_nodup_pos,
         b_pop_front_is_remove0, b_drop_first_is_remove0, b_pop_back_is_remove_last }
 
     // ---- memory totals: the sum of a per-entry size along the queue (under wf the queue enumerates the store exactly once)
@@ -682,6 +757,12 @@ pub fn vd_retain_ne_raw(o: &mut VecDeque<String>, key: &String)
 #[verifier::external_body]
 pub fn vd_retain_ne_str_raw(o: &mut VecDeque<String>, key: &str)
     ensures final(o)@ == rm_all(old(o)@, s2s(key))
+{ unimplemented!() }
+
+/// `o.retain(|k| m.contains_key(k))` (std adapter, assumed contract: keeps exactly the elements that satisfy the predicate, in order)
+#[verifier::external_body]
+pub fn vd_retain_in<V>(o: &mut VecDeque<String>, m: &HashMap<String, V>)
+    ensures final(o)@ == resident_filter(old(o)@, m@)
 { unimplemented!() }
 
 /// `o.retain(|k| k != key)`: the assumed part is *_raw above; the extra facts (for duplicate-free queues) are proved.
